@@ -50,7 +50,7 @@ Init == \E a \in Algs :
           /\ hist = <<NewEv(a)>>
 
 (* message bytes come from two alternating streams; the bytes at absolute positions from+1 .. from+n *)
-Data(p, from, n) == R!BytesFrom(Seed, 120 + p, from, n)
+Data(p, from, n) == SubSeq(R!BytesFrom(Seed, 120 + p, from, n), 1, n)      \* (a concrete tuple)
 
 (* classifier for known defect D8 (ZucMac!Mac256D8OnKS): the tag the defective tail logic produces, "" where it is the standard's *)
 AltD8(m, nbits, tag) ==
@@ -58,18 +58,21 @@ AltD8(m, nbits, tag) ==
   THEN LET a == M!Mac256D8OnKS(kw, m, nbits, 8 * alg.tag) IN IF a = tag THEN "" ELSE Hx!FromBytes(a)
   ELSE ""
 
+(* More == nops < MaxOps is the first conjunct of every action: a reply is computed only where a step is possible *)
+More == nops < MaxOps
 Step(ev) ==
-  /\ nops < MaxOps /\ nops' = nops + 1
+  /\ nops' = nops + 1
   /\ UNCHANGED name
   /\ hist' = Append(hist, ev)
   /\ Em!Line(OutFile, ToJson([fam |-> "zucmac", steps |-> hist']))
 
 NWrite(n) ==
-  /\ Len(msg) + n <= MaxBytes
+  /\ More /\ Len(msg) + n <= MaxBytes
   /\ Write(Data(par, Len(msg), n))
   /\ UNCHANGED <<prev, par>>
   /\ Step([op |-> "write", data |-> Hx!FromBytes(Data(par, Len(msg), n))])
 NSum ==
+  /\ More
   /\ Sum(<<171>>)
   /\ UNCHANGED <<prev, par>>
   /\ Step([op |-> "sum", prefix |-> "ab", bits |-> 8 * Len(msg), exp |-> Hx!FromBytes(reply'),
@@ -78,13 +81,13 @@ NFinish(nbits) ==
   LET nb == (nbits + 7) \div 8
       p  == Data(par, Len(msg), nb)
       total == (8 * Len(msg)) + nbits
-  IN  /\ Len(msg) + nb <= MaxBytes
+  IN  /\ More /\ Len(msg) + nb <= MaxBytes
       /\ Finish(p, nbits)
       /\ prev' = total /\ par' = 1 - par
       /\ Step([op |-> "finish", data |-> Hx!FromBytes(p), nbits |-> nbits, bits |-> total, exp |-> Hx!FromBytes(reply'),
                 alt_d8 |-> AltD8(msg \o p, total, reply')])
 NReset ==
-  /\ msg # <<>>
+  /\ More /\ msg # <<>>
   /\ Reset
   /\ prev' = 8 * Len(msg) /\ par' = 1 - par
   /\ Step([op |-> "reset"])
